@@ -604,7 +604,21 @@ def _inl(rule):
     return run
 
 
-RULES = [_inl(rule_return), _inl(rule_placement), _inl(rule_raise_exit)]
+def rule_handler_table(model):
+    r = RuleResult('C14.R8', 'the handler table and the blocks a try / '
+                   'raise / return tag keeps are re-iterable: a one-shot '
+                   'iterator would be consumed by the first exception '
+                   'handled, later ones would meet the remaining clauses '
+                   'only')
+    from .. import oneshot
+    return oneshot.fill_rule(
+        r, model, lambda fi, kind: fi.module.short in (
+            'DT_Try', 'DT_Raise', 'DT_Return') and fi.cls is not None, 8,
+        'the compiled try / raise tag')
+
+
+RULES = [_inl(rule_return), _inl(rule_placement), _inl(rule_raise_exit),
+         rule_handler_table]
 EXPLANATION = (
     'Who-may-catch analysis: least set of functions that can let DTReturn '
     'out (call graph incl. the block dispatch of render_blocks_), every try '
